@@ -238,7 +238,30 @@ func crashJob(raw json.RawMessage) (interface{}, error) {
 						post = append(post, "suffix|fsck|"+e)
 					}
 					if a.Reclaim {
-						post = append(post, reclaimAfterRecovery(w, fr2)...)
+						if pol == 0 {
+							post = append(post, reclaimAfterRecovery(w, fr2)...)
+						} else {
+							// the other way of touching half-freed objects: remove everything first
+							if m := w.DeleteAll(); m != nil {
+								post = append(post, "reclaim|deleteall|"+m.Rule+": "+m.Msg)
+							} else {
+								vrt.Quiesce()
+								fr4 := w.Fsck()
+								for _, e := range fr4.Reclaim() {
+									post = append(post, "reclaim|after-delete-all|"+e)
+								}
+								fb, fi := w.FreeCounts()
+								half := 0
+								for _, o := range fr4.Owned {
+									if !fr4.Reachable[o] {
+										half++
+									}
+								}
+								if half == 0 && (fb != uint64(a.DiskSize)-fr4.Layout.DataStart-uint64(len(fr4.Owned)) || fi != fr4.Layout.NInode-2-uint64(len(fr4.InUse))+1) {
+									post = append(post, fmt.Sprintf("reclaim|after-delete-all|free-counts: %d blocks / %d inodes free after deleting everything", fb, fi))
+								}
+							}
+						}
 					}
 				}
 			})
